@@ -207,7 +207,8 @@ def refHandle (sc : ScoreTable) (c : HCall) (s : Store) : HRes × Store :=
        let (n, cur') := ms.foldl step (0, cur)
        (intRes n, s.putOrDrop k (.zset cur')))
   | .zrange k a b o => (match s.get k with
-      | some (.zset cur) => (okRes (zMembers o.withscores (rangeSlice cur a b)), s)
+      -- with REV the indexes count from the highest (score, member): the slice of the descending order
+      | some (.zset cur) => (okRes (zMembers o.withscores (rangeSlice (if o.rev then cur.reverse else cur) a b)), s)
       | _ => (okRes (.arr []), s))
   | .zrangebyscore k lo hi o => (match s.get k with
       | some (.zset cur) =>
